@@ -56,6 +56,7 @@ type interpreter struct {
 	mutexes  map[*value]*vmMutex   // sync.Mutex / RWMutex state by address
 	steps   int64
 	tracked []value
+	race    *raceState
 	stackPrinted bool
 }
 
@@ -256,6 +257,13 @@ func visitInstr(fr *frame, instr ssa.Instruction) continuation {
 			} else {
 				fr.set(instr, v)
 			}
+		} else if instr.Op == token.MUL {
+			if fr.i.race != nil {
+				if a, ok := fr.get(instr.X).(*value); ok {
+					fr.i.raceCell(fr, a, false, instr.Pos())
+				}
+			}
+			fr.set(instr, unop(instr, fr.get(instr.X)))
 		} else if r, ok := fr.i.run.symUnop(instr.Op, fr.get(instr.X)); ok && instr.Op != token.MUL {
 			fr.set(instr, r)
 		} else {
@@ -328,6 +336,9 @@ func visitInstr(fr *frame, instr ssa.Instruction) continuation {
 		chanSend(fr, fr.get(instr.Chan).(*vmchan), fr.get(instr.X))
 
 	case *ssa.Store:
+		if fr.i.race != nil {
+			fr.i.raceCell(fr, fr.get(instr.Addr).(*value), true, instr.Pos())
+		}
 		store(mustDeref(instr.Addr.Type()), fr.get(instr.Addr).(*value), fr.get(instr.Val))
 
 	case *ssa.If:
@@ -402,6 +413,11 @@ func visitInstr(fr *frame, instr ssa.Instruction) continuation {
 		fr.set(instr, makeMap(instr.Type().Underlying().(*types.Map).Key(), reserve))
 
 	case *ssa.Range:
+		if fr.i.race != nil {
+			if m, ok := fr.get(instr.X).(*hashmap); ok {
+				fr.i.raceMap(fr, m, false, instr.Pos())
+			}
+		}
 		fr.set(instr, rangeIter(fr.i, fr.get(instr.X), instr.X.Type()))
 
 	case *ssa.Next:
@@ -439,6 +455,11 @@ func visitInstr(fr *frame, instr ssa.Instruction) continuation {
 		}
 
 	case *ssa.Lookup:
+		if fr.i.race != nil {
+			if m, ok := fr.get(instr.X).(*hashmap); ok {
+				fr.i.raceMap(fr, m, false, instr.Pos())
+			}
+		}
 		fr.set(instr, lookup(instr, fr.get(instr.X), fr.i.run.concreteDeep(fr.get(instr.Index))))
 
 	case *ssa.MapUpdate:
@@ -447,6 +468,9 @@ func visitInstr(fr *frame, instr ssa.Instruction) continuation {
 		v := fr.get(instr.Value)
 		switch m := m.(type) {
 		case *hashmap:
+			if fr.i.race != nil {
+				fr.i.raceMap(fr, m, true, instr.Pos())
+			}
 			m.insert(key, v)
 		default:
 			panic(fmt.Sprintf("illegal map type: %T", m))
